@@ -83,6 +83,17 @@ def check_one(md, t, form, x, table):
     return None
 
 
+def nest_html(cs, hid, mid):
+    """the HTML C09_render_nested_containers_escaped states (nest_html of Lemmas/NestRender.v)"""
+    if not cs:
+        return mid if hid else "<p>" + mid + "</p>\n"
+    c, r = cs[0], cs[1:]
+    if c == "Q":
+        return "<blockquote>\n" + nest_html(r, False, mid) + "</blockquote>\n"
+    return "<ul>\n<li>" + ("\n" if r else "") + nest_html(r, True, mid) + "</li>\n</ul>\n"
+
+
+
 def run(ctx) -> int:
     rep: Reporter = ctx["rep"]
     tier, seed, proofs = ctx["tier"], ctx["seed"], ctx["proofs"]
@@ -108,8 +119,6 @@ def run(ctx) -> int:
         if k % 4 == 0:
             # the form the end-to-end theorem C09_render_inline_escaped speaks about
             cases.append((cfg, "renderInline", esc_form(t), None))
-    n_run, disagreements, kn, kbad, lines = pipecheck.correspond(cases, "c09")
-
     count = {"n": 0, "known": 0}
 
     def probe(r, n):
@@ -146,7 +155,28 @@ def run(ctx) -> int:
         if wd and wd["context"].startswith("cell"):
             count["known"] += 1
             rep.known_finding(known)
-    direct = probe(rng, 1500 if q else 60000)
+    # the class of C09_render_nested_containers_escaped: escaped texts that start with a letter, behind every list of
+    # "> " / bullet markers up to depth 2 and sampled deeper ones: the HTML must be exactly nest_html(cs, escapeHtml(t))
+    import itertools
+    nest_bad = None
+    ctrs = ["Q"] + [(m, k) for m in "-*+" for k in (1, 2, 3, 4)]
+    nrng = rng_for("C09", seed, "nest")
+    fams = [cs for depth in range(0, 3) for cs in itertools.product(ctrs, repeat=depth)]
+    fams += [tuple(nrng.choice(ctrs) for _ in range(nrng.randrange(3, 7))) for _ in range(40 if q else 2000)]
+    for idx, cs in enumerate(fams):
+        t = "x" + gen_t(nrng, True).replace("\n", " ")
+        t = t.rstrip(" \t") or "x"
+        if t != t.strip() or any(ord(c) < 32 or ord(c) == 0x7f for c in t):
+            t = "xa*b_[c]<d>&e"
+        src = "".join("> " if c == "Q" else c[0] + " " * c[1] for c in cs) + esc_form(t) + "\n"
+        count["n"] += 1
+        out = guarded(mds[0][1].render, src)
+        if out != nest_html(list(cs), False, esc_html(t)) and nest_bad is None:
+            nest_bad = {"config": cfgs[0], "context": "nested containers", "containers": [c if c == "Q" else list(c) for c in cs], "t": t, "form": "backslash", "src": src, "html": out[:600]}
+        if idx % 5 == 0:
+            cases.append((cfgs[0], "render", src, None))
+    n_run, disagreements, kn, kbad, lines = pipecheck.correspond(cases, "c09")
+    direct = nest_bad or probe(rng, 1500 if q else 60000)
     conclude(rep, proofs, direct, "escaped-text-not-literal", disagreements, kbad,
              lambda: probe(rng_for("C09", seed, "search"), 6000 if q else 100000),
              "whole pipeline on templated escape documents: model and implementation differ")
@@ -162,6 +192,13 @@ def run(ctx) -> int:
 
 
 def replay(body) -> int:
+    if body.get("context") == "nested containers":
+        md = configs.make_md(body["config"])
+        cs = [c if c == "Q" else tuple(c) for c in body["containers"]]
+        out = md.render(body["src"])
+        bad = out != nest_html(cs, False, esc_html(body["t"]))
+        print("C09 on implementation:", "VIOLATED " + json.dumps({"html": out}, ensure_ascii=False)[:800] if bad else "holds")
+        return 1 if bad else 0
     if "t" in body and "config" in body:
         md = configs.make_md(body["config"])
         x = esc_form(body["t"]) if body.get("form") == "backslash" else body["src"]
